@@ -13,7 +13,7 @@ ALL_TYPES = "legacy,tweakless,anchors,zerofee,lease,taproot,taprootfinal"
 PROFILE = {
     "C01": dict(mc=dict(quick=["mc_c01_quick", "ChannelGhost:mc_ghost"],
                         thorough=["mc_c01_quick", "ChannelGhost:mc_ghost", "mc_c01_thorough"]),
-                gen=dict(MaxDisc=0, MaxAdds=5, MaxFees=3, MaxLen=110),
+                gen=dict(MaxDisc=1, MaxAdds=5, MaxFees=3, MaxLen=110),
                 n=dict(quick=70, thorough=700), shadow=1000000,
                 mc_timeout=dict(quick=600, thorough=3000)),
     "C02": dict(mc=dict(quick=["mc_c02_quick"], thorough=["mc_c02_quick", "mc_c02_thorough"]),
